@@ -20,7 +20,7 @@ def res_filter(cmd):
 def run(tier):
     return storefam.run_store(
         "C03", tier, profiles=["kv"], preds=PREDS, res_filter=res_filter,
-        mc_depth={"quick": {"kv": 4}, "thorough": {"kv": 6}},
+        mc_depth={"quick": {"kv": 4}, "thorough": {"kv": 5}},
         gen_depth={"quick": {"kv": 3}, "thorough": {"kv": 4}},
         rnd={"quick": [("kv", 40, 200)], "thorough": [("kv", 400, 300), ("txn", 150, 200)]},
         level_text="", pred_doc=DOC,
